@@ -155,4 +155,101 @@ Qed.
 Lemma exec_set (e : V) v x (s : state) z : eval x s = Some z -> exec e (SSet v x) s = Some (set s v z).
 Proof. cbn [exec]. intros ->. reflexivity. Qed.
 
+(* ---------------------------------------------------------------- counted loops, semantic shapes
+   The hypotheses about init / cond / step / count are closed statements about the concrete syntax (proved by
+   computation); J is the caller's invariant after j passes, stated on the state before the counter is advanced. *)
+Lemma loop_full (e : V) init cond step body count (v bnd : var) (n : nat) (J : nat -> state -> Prop) s :
+  (forall s : state, exec e init s = Some (set s v 0)) ->
+  (forall s : state, eval cond s = Some (b2z (get s v <? get s bnd))) ->
+  (forall s : state, exec e step s = Some (set s v ((get s v + 1) mod two64))) ->
+  (forall s : state, eval count s = Some (get s bnd - get s v)) ->
+  var_eqb bnd v = false ->
+  Z.of_nat n < two64 ->
+  get s bnd = Z.of_nat n ->
+  J O (set s v 0) ->
+  (forall j sj, (j < n)%nat -> J j sj -> get sj v = Z.of_nat j -> get sj bnd = Z.of_nat n ->
+     exists s', exec e body sj = Some s' /\ get s' v = Z.of_nat j /\ get s' bnd = Z.of_nat n /\
+                J (S j) (set s' v (Z.of_nat (S j)))) ->
+  exists s', exec e (SFor init cond step body count) s = Some s' /\ J n s' /\ get s' v = Z.of_nat n.
+Proof.
+  intros Hi Hc Hs Hn Hvb Hn64 Hb J0 Hbody.
+  destruct (for_rule e init cond step body count
+              (fun j sj => J j sj /\ get sj v = Z.of_nat j /\ get sj bnd = Z.of_nat n) s (set s v 0) (Z.of_nat n))
+    as (s' & E & HJ & Hv' & _).
+  - apply Hi.
+  - rewrite Hn. rewrite get_set_same, get_set_other by exact Hvb. rewrite Hb. f_equal. lia.
+  - split; [exact J0|]. rewrite get_set_same, get_set_other by exact Hvb. auto.
+  - rewrite Nat2Z.id. intros j sj Hj (HJ & Hv' & Hb'). split.
+    + eapply check_true; [apply Hc|]. rewrite Hv', Hb'. destruct (Z.ltb_spec (Z.of_nat j) (Z.of_nat n)); cbn; lia.
+    + destruct (Hbody j sj Hj HJ Hv' Hb') as (s1 & E1 & V1 & B1 & J1). rewrite E1. cbn [bind]. rewrite Hs.
+      rewrite V1. rewrite Z.mod_small by lia. replace (Z.of_nat j + 1) with (Z.of_nat (S j)) by lia.
+      eexists; split; [reflexivity|]. split; [exact J1|]. rewrite get_set_same, get_set_other by exact Hvb. auto.
+  - rewrite Nat2Z.id. intros sj (HJ & Hv' & Hb'). apply check_false. rewrite Hc, Hv', Hb', Z.ltb_irrefl. reflexivity.
+  - rewrite Nat2Z.id in *. eauto.
+Qed.
+
+Lemma loop_up (e : V) init cond step body count (c bnd : var) (k : Z) (J : nat -> state -> Prop) s :
+  (forall s : state, exec e init s = Some (set s c 0)) ->
+  (forall s : state, eval cond s = Some (b2z (get s c <? get s bnd))) ->
+  (forall s : state, exec e step s = match norm I32 (get s c + 1) with Some z => Some (set s c z) | None => None end) ->
+  (forall s : state, eval count s = Some (get s bnd - get s c)) ->
+  var_eqb bnd c = false ->
+  - two31 <= k < two31 ->
+  get s bnd = k ->
+  J O (set s c 0) ->
+  (forall j sj, (j < Z.to_nat k)%nat -> J j sj -> get sj c = Z.of_nat j -> get sj bnd = k ->
+     exists s', exec e body sj = Some s' /\ get s' c = Z.of_nat j /\ get s' bnd = k /\
+                J (S j) (set s' c (Z.of_nat (S j)))) ->
+  exists s', exec e (SFor init cond step body count) s = Some s' /\ J (Z.to_nat k) s'.
+Proof.
+  intros Hi Hc Hs Hn Hvb Hk Hb J0 Hbody.
+  destruct (for_rule e init cond step body count
+              (fun j sj => J j sj /\ get sj c = Z.of_nat j /\ get sj bnd = k) s (set s c 0) k)
+    as (s' & E & HJ & _).
+  - apply Hi.
+  - rewrite Hn. rewrite get_set_same, get_set_other by exact Hvb. rewrite Hb. f_equal. lia.
+  - split; [exact J0|]. rewrite get_set_same, get_set_other by exact Hvb. auto.
+  - intros j sj Hj (HJ & Hv' & Hb'). split.
+    + eapply check_true; [apply Hc|]. rewrite Hv', Hb'. destruct (Z.ltb_spec (Z.of_nat j) k); cbn; lia.
+    + destruct (Hbody j sj Hj HJ Hv' Hb') as (s1 & E1 & V1 & B1 & J1). rewrite E1. cbn [bind]. rewrite Hs.
+      rewrite V1. rewrite norm_inrange by (cbn; unfold two31 in *; lia).
+      replace (Z.of_nat j + 1) with (Z.of_nat (S j)) by lia.
+      eexists; split; [reflexivity|]. split; [exact J1|]. rewrite get_set_same, get_set_other by exact Hvb. auto.
+  - intros sj (HJ & Hv' & Hb'). apply check_false. rewrite Hc, Hv', Hb'.
+    destruct (Z.ltb_spec (Z.of_nat (Z.to_nat k)) k); [lia|reflexivity].
+  - eauto.
+Qed.
+
+Lemma loop_down (e : V) init cond step body count (c bnd : var) (k : Z) (J : nat -> state -> Prop) s :
+  (forall s : state, exec e init s = Some (set s c 0)) ->
+  (forall s : state, eval cond s = Some (b2z (get s bnd <? get s c))) ->
+  (forall s : state, exec e step s = match norm I32 (get s c - 1) with Some z => Some (set s c z) | None => None end) ->
+  (forall s : state, eval count s = Some (get s c - get s bnd)) ->
+  var_eqb bnd c = false ->
+  - two31 <= k < two31 ->
+  get s bnd = k ->
+  J O (set s c 0) ->
+  (forall j sj, (j < Z.to_nat (- k))%nat -> J j sj -> get sj c = - Z.of_nat j -> get sj bnd = k ->
+     exists s', exec e body sj = Some s' /\ get s' c = - Z.of_nat j /\ get s' bnd = k /\
+                J (S j) (set s' c (- Z.of_nat (S j)))) ->
+  exists s', exec e (SFor init cond step body count) s = Some s' /\ J (Z.to_nat (- k)) s'.
+Proof.
+  intros Hi Hc Hs Hn Hvb Hk Hb J0 Hbody.
+  destruct (for_rule e init cond step body count
+              (fun j sj => J j sj /\ get sj c = - Z.of_nat j /\ get sj bnd = k) s (set s c 0) (- k))
+    as (s' & E & HJ & _).
+  - apply Hi.
+  - rewrite Hn. rewrite get_set_same, get_set_other by exact Hvb. rewrite Hb. f_equal.
+  - split; [exact J0|]. rewrite get_set_same, get_set_other by exact Hvb. auto.
+  - intros j sj Hj (HJ & Hv' & Hb'). split.
+    + eapply check_true; [apply Hc|]. rewrite Hv', Hb'. destruct (Z.ltb_spec k (- Z.of_nat j)); cbn; lia.
+    + destruct (Hbody j sj Hj HJ Hv' Hb') as (s1 & E1 & V1 & B1 & J1). rewrite E1. cbn [bind]. rewrite Hs.
+      rewrite V1. rewrite norm_inrange by (cbn; unfold two31 in *; lia).
+      replace (- Z.of_nat j - 1) with (- Z.of_nat (S j)) by lia.
+      eexists; split; [reflexivity|]. split; [exact J1|]. rewrite get_set_same, get_set_other by exact Hvb. auto.
+  - intros sj (HJ & Hv' & Hb'). apply check_false. rewrite Hc, Hv', Hb'.
+    destruct (Z.ltb_spec k (- Z.of_nat (Z.to_nat (- k)))); [lia|reflexivity].
+  - eauto.
+Qed.
+
 End Facts.
